@@ -283,6 +283,36 @@ fn oracle_verit(line: &str, kind: &str, count: &str, data: &[u8]) -> V {
     Ok(())
 }
 
+/// the version-record iterators' provided `Iterator` methods agree with `next()` — outer iterators, the aux iterators they
+/// hand out, and the stand-alone aux iterators
+fn oracle_verit_methods(kind: &str, le: bool, c: Class, cnt: u64, off: usize, d: &[u8]) -> V {
+    use elf::gnu_symver::*;
+    let e = any_endian(le);
+    let dbg = |x: &dyn std::fmt::Debug| format!("{:?}", x);
+    match kind {
+        "def" => {
+            crate::oracle::iter_methods_check("C13: VerDefIterator", || VerDefIterator::new(e, c, cnt, off, d), |(vd, _)| dbg(vd))?;
+            for k in 0..3usize {
+                let mk = || VerDefIterator::new(e, c, cnt, off, d).nth(k).map(|(_, ai)| ai);
+                if mk().is_none() { break; }
+                crate::oracle::iter_methods_check("C13: VerDefAuxIterator of a definition", || mk().unwrap(), |a| dbg(a))?;
+            }
+            Ok(())
+        }
+        "need" => {
+            crate::oracle::iter_methods_check("C13: VerNeedIterator", || VerNeedIterator::new(e, c, cnt, off, d), |(vn, _)| dbg(vn))?;
+            for k in 0..3usize {
+                let mk = || VerNeedIterator::new(e, c, cnt, off, d).nth(k).map(|(_, ai)| ai);
+                if mk().is_none() { break; }
+                crate::oracle::iter_methods_check("C13: VerNeedAuxIterator of a requirement", || mk().unwrap(), |a| dbg(a))?;
+            }
+            Ok(())
+        }
+        "defaux" => crate::oracle::iter_methods_check("C13: VerDefAuxIterator", || VerDefAuxIterator::new(e, c, cnt as u16, off, d), |a| dbg(a)),
+        _ => crate::oracle::iter_methods_check("C13: VerNeedAuxIterator", || VerNeedAuxIterator::new(e, c, cnt as u16, off, d), |a| dbg(a)),
+    }
+}
+
 // ------------------------------------------------------------------------------------------
 // whole files
 // ------------------------------------------------------------------------------------------
@@ -933,12 +963,58 @@ pub fn oracle_alloc(line: &str) -> V {
 pub fn oracle_line2(line: &str, ann: &str) -> V {
     let t: Vec<&str> = line.trim().split(' ').collect();
     match t.as_slice() {
-        ["notes", le, _cls, align, hexd] => oracle_notes(line, *le == "1", align, &unhex(hexd)),
+        ["notes", le, cls, align, hexd] => {
+            oracle_notes(line, *le == "1", align, &unhex(hexd))?;
+            let (e, c, a, d) = (any_endian(*le == "1"), class_of(cls), nat(align), unhex(hexd));
+            let base = d.as_ptr() as usize;
+            crate::oracle::iter_methods_check("C14: NoteIterator", || elf::note::NoteIterator::new(e, c, a, &d), |n| match n {
+                elf::note::Note::GnuAbiTag(t) => format!("abitag({},{},{},{})", t.os, t.major, t.minor, t.subminor),
+                elf::note::Note::GnuBuildId(b) => format!("buildid(@{}+{})", b.0.as_ptr() as usize - base, b.0.len()),
+                elf::note::Note::Unknown(x) => format!("any({},@{}+{},@{}+{})", x.n_type, x.name.as_ptr() as usize - base, x.name.len(), x.desc.as_ptr() as usize - base, x.desc.len()),
+            })
+        }
+        [kind @ ("sysvm" | "gnum"), le, cls, symhex, strhex, nameshex, hashhex] => {
+            // history independence: the k-th lookup on a shared table value answers what a lookup on a fresh value answers
+            let tag = if *kind == "gnum" { "C11" } else { "C12" };
+            let got = run_line(line);
+            let single = if *kind == "gnum" { "gnu" } else { "sysv" };
+            let want: Vec<String> = nameshex.split('.').map(|n| run_line(&format!("{} {} {} {} {} {} {}", single, le, cls, symhex, strhex, n, hashhex))).collect();
+            let want_s = if want.iter().any(|w| w.starts_with("new:")) { want[0].clone() } else { want.join(" | ") };
+            if got != want_s {
+                let g: Vec<&str> = got.split(" | ").collect();
+                let k = g.iter().zip(&want).position(|(a, b)| a != b).unwrap_or(0);
+                return Err(format!("{}: lookup #{} on a table value that answered {} lookups before returns `{}`; the same lookup on a fresh table value returns `{}`",
+                                   tag, k + 1, k, g.get(k).unwrap_or(&"?"), want.get(k).map(|s| s.as_str()).unwrap_or("?")));
+            }
+            Ok(())
+        }
         [kind @ ("sysv" | "gnu"), le, cls, symhex, strhex, namehex, hashhex] => oracle_hash(
             kind, *le == "1", class_of(cls), &unhex(symhex), &unhex(strhex), &unhex(namehex), &unhex(hashhex), ann,
         ),
-        ["symver", _le, _cls, _idxs, _nc, _dc, _vs, _nd, nds, _df, dfs] => oracle_symver(line, ann, &unhex(nds), &unhex(dfs)),
-        ["verit", kind, _le, _cls, count, _off, hexd] => oracle_verit(line, kind, count, &unhex(hexd)),
+        ["symver", le, cls, _idxs, nc, dc, vs, nd, nds, df, dfs] => {
+            oracle_symver(line, ann, &unhex(nds), &unhex(dfs))?;
+            // the names iterator of every definition: its provided Iterator methods agree with next()
+            use elf::gnu_symver::*;
+            let (e, c) = (any_endian(*le == "1"), class_of(cls));
+            let (vsb, ndb, ndsb, dfb, dfsb) = (unhex(vs), unhex(nd), unhex(nds), unhex(df), unhex(dfs));
+            let mk_table = || {
+                let needs = if *nc == "-" { None } else { Some((VerNeedIterator::new(e, c, nc.parse::<u64>().unwrap_or(0), 0, &ndb), StringTable::new(&ndsb))) };
+                let defs = if *dc == "-" { None } else { Some((VerDefIterator::new(e, c, dc.parse::<u64>().unwrap_or(0), 0, &dfb), StringTable::new(&dfsb))) };
+                SymbolVersionTable::new(elf::gnu_symver::VersionIndexTable::new(e, c, &vsb), needs, defs)
+            };
+            let t = mk_table();
+            for i in 0..(vsb.len() / 2).min(12) {
+                if let Ok(Some(_)) = t.get_definition(i) {
+                    crate::oracle::iter_methods_check("C13: names of a definition", || t.get_definition(i).ok().flatten().unwrap().names,
+                        |r| match r { Ok(s) => format!("ok {:?}", s.as_bytes()), Err(_) => "err".into() })?;
+                }
+            }
+            Ok(())
+        }
+        ["verit", kind, le, cls, count, off, hexd] => {
+            oracle_verit(line, kind, count, &unhex(hexd))?;
+            oracle_verit_methods(kind, *le == "1", class_of(cls), count.parse::<u64>().unwrap_or(0), nat(off), &unhex(hexd))
+        }
         ["file", sp, queries, hexd] => oracle_file(sp, queries, &unhex(hexd), ann),
         ["prefix", _sp, queries, k, hexd] => oracle_prefix(queries, nat(k), &unhex(hexd), ann),
         _ => crate::oracle3::oracle_line3(line, ann),
